@@ -4,11 +4,18 @@ Implementation side + generators + direct property oracle.  The Lean model is le
 `binned`), its protocol handler lean/Driver/Notch.lean (ops `c07.*`).
 
 The wrapped law's values at the class edges travel as a table (the look-up table of the REAL `Binned` object), so
-the compiled model performs the class selection / sign handling / range check itself on the same numbers; the class
-edges are recomputed by the model with the code's IEEE expression `(i / n) * max` and compared bit for bit."""
+the compiled model performs the class selection / sign handling / range check itself on the same numbers.  The class
+edges of the real table are compared with the model's `(i / n) * max` and with the exact `i * max / n` WITHIN ROUNDING
+(the property fixes the class width, not the float expression); the look-ups are judged on the edges the table holds.
+
+Per-point tables: the model is the REPAIRED per-point look-up (every point selects the class in its own column and is
+checked against its own range, tools/fixes/C07-binned-per-point-class.diff).  The behaviour before the repair (class
+and range check of the FIRST point for all points) is the finding class `binned-multi-first-point-class`; it is
+recognised by its mechanism only: the code's answer must be bit for bit the first-point reproduction."""
 import json
 import math
 import warnings
+from fractions import Fraction
 
 import numpy as np
 import pandas as pd
@@ -19,6 +26,7 @@ SOURCES = ["src/pylife/materiallaws/notch_approximation_law.py"]
 INF = math.inf
 FNS = ["stress", "strain", "stress2", "strain2"]          # 2 = secondary branch
 BIN_COUNTS = [1, 2, 3, 7, 100, 128]
+FIRST_POINT = "binned-multi-first-point-class"
 
 
 # ------------------------------------------------------------------ wrapped laws
@@ -66,6 +74,22 @@ def make_binned(case):
             return nal.Binned(law, float(case["maxL"]), case["n"]), law
 
 
+def make_index(spec):
+    """The index of a load Series: None = default RangeIndex; {"names": [...], "labels": [...]} flat (one name) or a
+    MultiIndex (labels = list of tuples)."""
+    if not spec:
+        return None
+    names, labels = spec["names"], spec["labels"]
+    if len(names) > 1:
+        return pd.MultiIndex.from_tuples([tuple(l) for l in labels], names=names)
+    return pd.Index(labels, name=names[0])
+
+
+def make_series(xs, spec):
+    idx = make_index(spec)
+    return pd.Series(xs, dtype=float) if idx is None else pd.Series(xs, index=idx, dtype=float)
+
+
 def call(b, fn, x):
     """One look-up on the real object; returns a list of floats or the exception class name."""
     try:
@@ -84,6 +108,17 @@ def call(b, fn, x):
     return [float(v) for v in np.atleast_1d(np.asarray(r, dtype=float))]
 
 
+def law_on(law, fn, loads):
+    """The wrapped law's own value of `fn` for loads (a Series or a float) - what the table must hold at the edges."""
+    if fn == "stress":
+        return law.stress(loads)
+    if fn == "strain":
+        return law.strain(law.stress(loads), loads)
+    if fn == "stress2":
+        return law.stress_secondary_branch(loads)
+    return law.strain_secondary_branch(law.stress_secondary_branch(loads), loads)
+
+
 def lut_of(b, fn, npoints=None):
     """(loads, values) of the table a function reads; class-major for per-point tables."""
     lut = b._lut_primary_branch if fn in ("stress", "strain") else b._lut_secondary_branch
@@ -99,8 +134,31 @@ def hz(x):
 
 
 def edges_py(n, maxL, m):
-    """The property's class edges, computed with the same IEEE expression as the code: (i / n) * max."""
+    """Class edges by the expression the code uses today, `(i / n) * max`; only used to PLACE probes (on the edges and
+    their float neighbours) - the judgement uses the edges the real table holds."""
     return [(float(i) / float(n)) * float(maxL) for i in range(1, m + 1)]
+
+
+def edge_error_ulps(e, i, n, maxL):
+    """|e - i·max/n| in units of ulp(e), the exact product/quotient by rational arithmetic."""
+    exact = Fraction(i) * Fraction(float(maxL)) / n
+    return float(abs(Fraction(e) - exact) / Fraction(math.ulp(e))) if math.isfinite(e) and e != 0 else INF
+
+
+def check_edges(lj, n, M, m):
+    """The property's class grid on the edges a table holds: strictly increasing, every edge i·max/n within rounding of a
+    two-operation float expression (2 ulp), the last edge exactly the range max resp. 2·max (every load <= max must get a
+    value, every load above it an error).  Returns None or a description."""
+    for i, e in enumerate(lj, 1):
+        if not (e > (lj[i - 2] if i > 1 else 0.0)):
+            return f"class {i} has load {e!r}, not above the previous edge {(lj[i - 2] if i > 1 else 0.0)!r}"
+        err = edge_error_ulps(e, i, n, M)
+        if err > 2.0:
+            return f"class {i} has load {e!r}, upper class edge i*max/n = {float(Fraction(i) * Fraction(float(M)) / n)!r} ({err:.3g} ulp off)"
+    top = float(M) * (m // n)
+    if lj[-1] != top:
+        return f"last class {m} has load {lj[-1]!r}, the initialised range ends at {top!r}"
+    return None
 
 
 def sign(x):
@@ -115,19 +173,57 @@ def down(x):
     return math.nextafter(x, -INF)
 
 
+def klass(es, x):
+    """index of the first class whose edge is >= |x| (linear scan), None above the range"""
+    return next((i for i, e in enumerate(es) if abs(x) <= e), None)
+
+
 # ------------------------------------------------------------------ generators
-def gen_law(rng):
-    if rng.random() < 0.45:
+def gen_law(rng, n=1):
+    """SeegerBeste solves element by element (about 10 ms per class edge): small tables only."""
+    u = rng.random()
+    if u < 0.4:
         return {"type": "stub", "a": rng.choice([1.0, 0.5, rng.uniform(0.1, 2)]), "b": rng.choice([0.0, 1e-6, rng.uniform(0, 1e-5)]),
                 "c": rng.choice([1e-5, 2.0 ** -17])}
     E = rng.choice([206e3, 70e3, rng.uniform(6e4, 2.2e5)])
-    return {"type": "neuber", "E": E, "K": rng.uniform(400, 3000), "n": rng.uniform(0.1, 0.3),
-            "Kp": rng.choice([1.0, 1.5, 3.5, rng.uniform(1, 8)])}
+    if u < 0.85 or n > 7:
+        return {"type": "neuber", "E": E, "K": rng.uniform(400, 3000), "n": rng.uniform(0.1, 0.3),
+                "Kp": rng.choice([1.0, 1.5, 3.5, rng.uniform(1, 8)])}
+    return {"type": "sb", "E": E, "K": rng.uniform(400, 3000), "n": rng.uniform(0.1, 0.3),
+            "Kp": rng.choice([1.5, 2.5, 3.5, rng.uniform(1.3, 6)])}
 
 
 def gen_max(rng):
     return rng.choice([700.3, 1000.0, 512.0, 0.1, 1e-3 / 3, 333.3333333333333, rng.uniform(50, 3000), rng.uniform(1, 50),
                        1266.25, 1e5 / 7])
+
+
+def gen_index(rng, k, kinds):
+    """An index for a Series of k loads.  The look-ups are positional: the labels must not matter."""
+    kind = rng.choice(kinds)
+    if kind == "range":
+        return None
+    if kind == "ints":                 # shuffled non-contiguous node ids
+        return {"kind": kind, "names": ["node_id"], "labels": rng.sample(range(1, 10 * k + 60), k)}
+    if kind == "perm":                 # the positions themselves, permuted: label alignment would silently re-order
+        lab = list(range(k))
+        while k > 1 and lab == list(range(k)):
+            rng.shuffle(lab)
+        return {"kind": kind, "names": [None], "labels": lab}
+    if kind == "dup":                  # what the FKM-nonlinear detector feeds for load ranges: one load_step for all
+        return {"kind": kind, "names": ["load_step"], "labels": [rng.randint(0, 9)] * k}
+    if kind == "str":
+        lab = [f"n{v}" for v in rng.sample(range(1000), k)]
+        return {"kind": kind, "names": ["node"], "labels": lab}
+    if kind == "float":
+        return {"kind": kind, "names": [None], "labels": [round(rng.uniform(-5, 5), 3) for _ in range(k)]}
+    # 2-level MultiIndex (load_step, node_id), as the detector's load Series
+    ids = rng.sample(range(1, 10 * k + 60), k)
+    step = rng.randint(0, 5)
+    return {"kind": "multi", "names": ["load_step", "node_id"], "labels": [[step, v] for v in ids]}
+
+
+SINGLE_INDEX_KINDS = ["range", "ints", "perm", "perm", "dup", "str", "float", "multi"]
 
 
 def class_subset(rng, m, k=6):
@@ -148,7 +244,7 @@ def single_queries(rng, n, maxL, few=False):
         inr = [0.0, -0.0, top, -top]
         for i in class_subset(rng, m, 3 if few else 6):
             e = es[i - 1]
-            for v in (e, up(e), down(e)):
+            for v in (e, up(e), down(e), up(up(e)), down(down(e))):
                 if v <= top:
                     inr += [v, -v]
         inr += [rng.uniform(-top, top) for _ in range(4 if few else 10)]
@@ -157,23 +253,51 @@ def single_queries(rng, n, maxL, few=False):
         if fn in ("stress", "strain"):
             out += [2 * top, top + es[0] * 0.5]
         rng.shuffle(inr)
-        qs.append({"fn": fn, "form": "series", "xs": inr})
+        qs.append({"fn": fn, "form": "series", "xs": inr, "index": gen_index(rng, len(inr), SINGLE_INDEX_KINDS)})
+        sub = rng.sample(inr, min(len(inr), 5))
+        qs.append({"fn": fn, "form": "series", "xs": sub, "index": gen_index(rng, len(sub), SINGLE_INDEX_KINDS[1:])})
         for x in rng.sample(inr, min(len(inr), 4 if few else 8)) + [top, -top, 0.0]:
             qs.append({"fn": fn, "form": "scalar", "xs": [x]})
         for x in out[: (3 if few else len(out))]:
             qs.append({"fn": fn, "form": "scalar", "xs": [x]})
         bad = rng.sample(inr, min(3, len(inr))) + [rng.choice(out)]
         rng.shuffle(bad)
-        qs.append({"fn": fn, "form": "series", "xs": bad})
+        qs.append({"fn": fn, "form": "series", "xs": bad, "index": gen_index(rng, len(bad), SINGLE_INDEX_KINDS)})
     if rng.random() < 0.3:
         qs.append({"fn": rng.choice(FNS), "form": "scalar", "xs": ["nan"]})
+    if rng.random() < 0.4:          # NaN inside a Series on a single table: `fillna(0)` (code and model), not judged by the oracle
+        fn = rng.choice(FNS)
+        xs = [rng.uniform(-maxL, maxL) for _ in range(3)] + ["nan"]
+        rng.shuffle(xs)
+        qs.append({"fn": fn, "form": "series", "xs": xs, "index": gen_index(rng, len(xs), SINGLE_INDEX_KINDS)})
     return qs
 
 
 def gen_single(rng, n=None, few=False):
     n = n if n is not None else rng.choice(BIN_COUNTS)
     maxL = gen_max(rng)
-    return {"kind": "single", "law": gen_law(rng), "maxL": maxL, "n": n, "queries": single_queries(rng, n, maxL, few)}
+    return {"kind": "single", "law": gen_law(rng, n), "maxL": maxL, "n": n, "queries": single_queries(rng, n, maxL, few)}
+
+
+def multi_index(rng, ids):
+    """Index of a per-point load Series: the node ids in table order (default), the same ids in ANOTHER order, unrelated
+    ids, one load_step for all points (detector, load ranges), (load_step, node_id), a RangeIndex, strings.  Loads and
+    points are paired by position in every case."""
+    p = len(ids)
+    kind = rng.choice(["ids", "ids", "permuted_ids", "permuted_ids", "other_ids", "dup", "multi", "range", "str"])
+    if kind == "ids":
+        return {"kind": kind, "names": ["node_id"], "labels": list(ids)}
+    if kind == "permuted_ids":
+        lab = list(ids)
+        while p > 1 and lab == list(ids):
+            rng.shuffle(lab)
+        return {"kind": kind, "names": ["node_id"], "labels": lab}
+    if kind == "other_ids":
+        return {"kind": kind, "names": ["node_id"], "labels": rng.sample(range(100, 200), p)}
+    if kind == "multi":
+        step = rng.randint(0, 5)
+        return {"kind": kind, "names": ["load_step", "node_id"], "labels": [[step, v] for v in ids]}
+    return gen_index(rng, p, [kind])
 
 
 def gen_multi(rng, n=None):
@@ -184,58 +308,113 @@ def gen_multi(rng, n=None):
     maxLs = [r * M0 for r in ratios]
     ids = rng.sample(range(1, 50), p)
     qs = []
+
+    def add(fn, xs, how):
+        qs.append({"fn": fn, "how": how, "xs": xs, "index": multi_index(rng, ids)})
+
     for fn in FNS:
         m = n if fn in ("stress", "strain") else 2 * n
         scale = m / n
-        # proportional loads x_j = t * M_j: on the edges (t = i/n exactly), inside classes, zero, the limits, outside
+        # proportional loads x_j = t * M_j (what the FKM-nonlinear assessment feeds): on the edges (t = i/n exactly),
+        # inside classes, zero, the limits, outside
         ts = [0.0, scale, -scale, scale * 1.001, -scale * 1.5]
         for i in class_subset(rng, m, 3):
             ts += [float(i) / float(n), -(float(i) / float(n)), (i - rng.uniform(0.05, 0.95)) / n, -(i - rng.uniform(0.05, 0.95)) / n]
         for t in ts:
-            qs.append({"fn": fn, "prop": True, "xs": [t * M for M in maxLs]})
-        # free loads: the class comes from the first point only (as coded); +-1 ulp around the first point's edges
-        es = edges_py(n, maxLs[0], m)
-        for i in class_subset(rng, m, 2):
-            for v in (es[i - 1], up(es[i - 1]), down(es[i - 1])):
-                x0 = v * rng.choice([1, -1])
-                qs.append({"fn": fn, "prop": False,
-                           "xs": [x0] + [rng.uniform(-3, 3) * M for M in maxLs[1:]]})
-    return {"kind": "multi", "law": gen_law(rng), "maxLs": maxLs, "node_ids": ids, "n": n, "queries": qs}
+            add(fn, [t * M for M in maxLs], "prop")
+        ess = [edges_py(n, M, m) for M in maxLs]
+        # every point anywhere in its OWN range (classes differ from point to point), own signs
+        for _ in range(4):
+            add(fn, [rng.uniform(-1, 1) * scale * M for M in maxLs], "free")
+        # every point on / next to one of its own edges
+        for _ in range(3):
+            xs = []
+            for es in ess:
+                e = es[rng.choice(class_subset(rng, m, 2)) - 1]
+                v = rng.choice([e, up(e), down(e)])
+                xs.append(min(v, es[-1]) * rng.choice([1, -1]))
+            add(fn, xs, "edges")
+        # exactly one point above its own range (by one ulp / a little / a lot), the others inside theirs
+        for _ in range(3):
+            xs = [rng.uniform(-1, 1) * scale * M for M in maxLs]
+            j = rng.randrange(p)
+            top = ess[j][-1]
+            xs[j] = rng.choice([up(top), top * (1 + 1e-9), top * rng.uniform(1.0001, 5), INF]) * rng.choice([1, -1])
+            add(fn, [("inf" if x == INF else "-inf" if x == -INF else x) for x in xs], "one_out")
+        # the first point at its limits, the others free in their ranges
+        for v in (ess[0][-1], -ess[0][-1], up(ess[0][-1])):
+            add(fn, [v] + [rng.uniform(-1, 1) * scale * M for M in maxLs[1:]], "first_limit")
+    # a Series that does not hold one load per point (p >= 2: with one point the code before the repair broadcast a longer
+    # Series against the one-row class instead of rejecting it)
+    if p >= 2:
+        fn = rng.choice(FNS)
+        xs = [rng.uniform(-0.5, 0.5) * M for M in maxLs]
+        wrong = xs + [xs[0]] if rng.random() < 0.5 else xs[:-1]
+        qs.append({"fn": fn, "how": "length", "xs": wrong, "index": None})
+    return {"kind": "multi", "law": gen_law(rng, n), "maxLs": maxLs, "node_ids": ids, "n": n, "queries": qs}
 
 
 # ------------------------------------------------------------------ the property
 class C07(Prop):
     ID = "C07"
     SOURCES = SOURCES
-    LEAN_MODULES = ["Proofs.C07"]
+    LEAN_MODULES = ["Proofs.C07", "Proofs.C07Neuber"]
     THEOREMS = [f"PylifeVerif.C07.{t}" for t in [
         "binned_upper_edge", "binned_range", "binned_on_edge", "binned_zero", "binned_out_of_range",
         "binned_never_underestimates", "binned_monotone", "binned_deviation_lt_one_class",
-        "binned_multi_table_eq_single", "binned_multi_eq_single"]]
-    PARTIAL = {}
-    RULE = ("case = wrapped law (real ExtendedNeuber with random material / monotone stub) x maximum load(s) x bin count in "
-            "{1,2,3,7,100,128} x look-ups (stress, strain, both branches; scalar, Series on one table, per-point Series on a "
-            "per-point table) at 0, -0, every (sampled) class edge computed with the code's expression and its two float "
-            "neighbours, both signs, +-max, random interior loads, loads above the range, inf, NaN.  Correspondence: class "
-            "edges of the real table vs the model's `(i/n)*max` bit for bit; every look-up of the real object vs the model's "
-            "look-up on the real table's numbers, bit for bit (sign of zero dropped), `ValueError` vs `none`.  Oracle (no "
-            "Lean): table = wrapped law called on the edges (bit-exact), look-up = sign x value of the first class whose edge "
-            "is >= |x| by a linear scan over independently computed edges, errors outside the range, never below the law, "
-            "monotone, less than one class off, per-point table = single tables, proportional per-point look-up = single "
-            "look-ups.  Non-trivial = every case with at least one successful and one rejected look-up")
+        "binned_multi_table_eq_single", "binned_multi_eq_single", "binned_multi_out_of_range",
+        "binned_multi_first_point_eq_single_partial", "first_point_selection_ignores_range_of_other_points",
+        "first_point_selection_wrong_class",
+        # Proofs/C07Neuber.lean: the hypotheses "odd, monotone" discharged for the extended Neuber law (uses C06)
+        "binned_neuber_consequences", "exists_isNeuberStress"]]
+    PARTIAL = {
+        "PylifeVerif.C07.binned_multi_first_point_eq_single_partial":
+            "about the per-point look-up as coded BEFORE tools/fixes/C07-binned-per-point-class.diff (class and range check of "
+            "the first point for all points): equal to the single look-ups only under `hprop` (loads proportional to the "
+            "maxima); without it the statement is false (first_point_selection_ignores_range_of_other_points, "
+            "first_point_selection_wrong_class).  The full statement is binned_multi_eq_single / binned_multi_out_of_range "
+            "about the repaired look-up",
+    }
+    RULE = ("case = wrapped law (real ExtendedNeuber / SeegerBeste with random material, monotone stub) x maximum load(s) x bin "
+            "count in {1,2,3,7,100,128} x look-ups (stress, strain, both branches; scalar, Series on one table, per-point Series "
+            "on a per-point table) at 0, -0, every (sampled) class edge and its float neighbours (1 and 2 ulp), both signs, "
+            "+-max, random interior loads, loads above the range, inf, NaN; Series with a RangeIndex, shuffled node ids, "
+            "permuted positions, duplicate labels (one load_step), strings, floats, a (load_step, node_id) MultiIndex; "
+            "per-point Series with the node ids in table order, in another order, unrelated labels ..., loads proportional "
+            "to the maxima, free in every point's own range, on every point's own edges, exactly one point above its own "
+            "range, wrong length.  Correspondence: class edges of the real table vs the model's `(i/n)*max` within 2 ulp; every "
+            "look-up of the real object vs the model's look-up on the real table's numbers, bit for bit (sign of zero "
+            "dropped), `ValueError` vs `none`.  Oracle (no Lean): edges strictly increasing, within 2 ulp of the exact "
+            "i*max/n, last edge = max resp. 2 max; table = wrapped law called on the edges (bit-exact); look-up = sign x value "
+            "of the first class whose edge is >= |x| by a linear scan over the table's edges, per point in the point's own "
+            "column; ValueError iff some load is above its own range; for all four functions never below the law, monotone, "
+            "less than one class off; per-point table = single tables, per-point look-up = single look-ups.  Non-trivial = "
+            "every case with at least one successful and one rejected look-up")
     ASSUMPTIONS = [
-        "C07: theorems are over an arbitrary linearly ordered field (exact arithmetic); the IEEE evaluation of (i/n)*max is "
-        "not modelled in the theorems - the correspondence checks that the real table's edges equal the same expression at "
-        "Float and that the class selection on those doubles agrees bit for bit",
+        "C07: theorems are over an arbitrary linearly ordered field (exact arithmetic); the IEEE evaluation of the class edges "
+        "is not modelled in the theorems - the checks require the real table's edges to be strictly increasing, within 2 ulp "
+        "of the exact i*max/n (and of the model's (i/n)*max at Float) and to end exactly at max resp. 2 max, and the class "
+        "selection on those doubles to agree bit for bit",
         "C07: np.searchsorted(side='left') on the increasing edge column is modelled as 'first index with edge >= |x|' "
-        "(numpy contract); pandas iloc / boolean row selection as list indexing",
-        "C07: the wrapped law is an arbitrary function in the theorems; its values at the edges are taken from the real table "
-        "in the correspondence; that the table holds the wrapped law's values at the edges is checked by the oracle against "
-        "a direct call of the law on the Series of edges",
-        "C07: admissible configuration: number_of_bins >= 1, maximum load > 0 (all points); NaN in a Series (replaced by 0 by "
-        "the code) and a scalar look-up on a per-point table are outside the property and not generated",
-        "C07: per-point look-up selects the class with the FIRST point's load (as coded); equality with the single look-ups "
-        "is proved and checked for proportional loads (x_j = t * max_j), which is what the FKM-nonlinear assessment feeds",
+        "(numpy contract); pandas iloc / boolean row selection / reshape of the class-major table as list indexing",
+        "C07: the wrapped law is an arbitrary function in the theorems (monotone and odd for the consequence clauses; that the "
+        "real laws are is C06/C16 material and checked here numerically only); its values at the edges are taken from the "
+        "real table in the correspondence; that the table holds the wrapped law's values at the edges is checked by the "
+        "oracle against a direct call of the law on the Series of edges",
+        "C07: admissible configuration: number_of_bins >= 1, maximum load > 0 (all points).  Outside the property and not "
+        "judged: NaN inside a Series on a single table (the code replaces it by 0; modelled by `fillna0` and compared in the "
+        "correspondence), NaN in a per-point Series (not generated), a scalar look-up on a per-point table (returns a "
+        "meaningless number; not generated), a per-point Series whose length is not the number of points (code and model "
+        "reject it; correspondence only)",
+        "C07: loads of a Series are paired with table rows / points BY POSITION, index labels are ignored: the anchored caller "
+        "(FKMNonlinearDetector._proceed_on_secondary_branch) passes load ranges whose index has no node_id level at all, the "
+        "doc string asks for a RangeIndex.  A per-point Series whose node_id labels are in another order than the table's is "
+        "therefore read in Series order (decision recorded here; the property text does not mention labels)",
+        "C07: the per-point look-up is modelled as REPAIRED by tools/fixes/C07-binned-per-point-class.diff (every point in its "
+        "own column, own range check).  Before the repair the code took class and range check of the first point for all "
+        "points: finding class binned-multi-first-point-class, recognised only when the code's answer equals the "
+        "first-point reproduction bit for bit (harness: oracle `first_point_repro`, correspondence: model "
+        "`lookupMultiFirst`); the harness code that classifies this belongs to the trusted base",
     ]
 
     def __init__(self):
@@ -276,6 +455,12 @@ class C07(Prop):
     def _xs(self, q):
         return [float(x) for x in q["xs"]]
 
+    def _series(self, case, q):
+        """the load Series of a query (index as recorded in the case; old corpus cases: node ids in table order)"""
+        if case["kind"] == "multi" and "index" not in q:
+            return pd.Series(self._xs(q), index=pd.Index(case["node_ids"], name="node_id"))
+        return make_series(self._xs(q), q.get("index"))
+
     def model_lines(self, case):
         bl = self._binned(case)
         if isinstance(bl, Exception):
@@ -289,7 +474,8 @@ class C07(Prop):
             for q in case["queries"]:
                 loads, vals = lut_of(b, q["fn"])
                 xs = " ".join(f2h(x) for x in self._xs(q))
-                lines.append(f"c07.lookup {len(loads)} {' '.join(map(f2h, loads))} {' '.join(map(f2h, vals))} {xs}")
+                op = "c07.series" if q["form"] == "series" else "c07.lookup"
+                lines.append(f"{op} {len(loads)} {' '.join(map(f2h, loads))} {' '.join(map(f2h, vals))} {xs}")
                 if q["form"] == "series":
                     lines.append(f"c07.pos {len(loads)} {' '.join(map(f2h, loads))} {xs}")
         else:
@@ -301,7 +487,9 @@ class C07(Prop):
                 loads, vals = lut_of(b, q["fn"])
                 m = len(loads) // p
                 xs = " ".join(f2h(x) for x in self._xs(q))
-                lines.append(f"c07.multi {m} {p} {' '.join(map(f2h, loads))} {' '.join(map(f2h, vals))} {xs}")
+                tab = f"{m} {p} {' '.join(map(f2h, loads))} {' '.join(map(f2h, vals))} {xs}"
+                lines.append("c07.multi " + tab)
+                lines.append("c07.multifirst " + tab)
         return lines
 
     def impl_lines(self, case):
@@ -323,8 +511,9 @@ class C07(Prop):
                     self._count("scalar_" + ("value" if isinstance(r, list) else r))
                     out.append(r if isinstance(r, str) else " ".join(hz(v) for v in r))
                 else:
-                    r = call(b, q["fn"], pd.Series(xs))
+                    r = call(b, q["fn"], self._series(case, q))
                     self._count("series_" + ("value" if isinstance(r, list) else r))
+                    self._count("series_index_" + ((q.get("index") or {}).get("kind", "range")))
                     self._count("series_lookups", len(xs))
                     out.append(r if isinstance(r, str) else " ".join(hz(v) for v in r))
                     loads, _vals = lut_of(b, q["fn"])
@@ -337,18 +526,43 @@ class C07(Prop):
                 out.append(" ".join(f2h(v) for v in b._lut_primary_branch.load[ids == nid].to_numpy()))
                 ids2 = b._lut_secondary_branch.index.get_level_values("node_id")
                 out.append(" ".join(f2h(v) for v in b._lut_secondary_branch.delta_load[ids2 == nid].to_numpy()))
-            idx = pd.Index(case["node_ids"], name="node_id")
             for q in case["queries"]:
-                r = call(b, q["fn"], pd.Series(self._xs(q), index=idx))
+                r = call(b, q["fn"], self._series(case, q))
                 self._count("multi_" + ("value" if isinstance(r, list) else r))
-                out.append(r if isinstance(r, str) else " ".join(hz(v) for v in r))
+                self._count("multi_index_" + ((q.get("index") or {}).get("kind", "range" if "index" in q else "ids")))
+                self._count("multi_how_" + q.get("how", "corpus"))
+                a = r if isinstance(r, str) else " ".join(hz(v) for v in r)
+                out += [a, a]
         return out
 
     def compare(self, case, model_out, impl_out):
         if len(model_out) != len(impl_out):
             return f"length {len(model_out)} vs {len(impl_out)}"
+        nedge = 2 if case["kind"] == "single" else 2 * len(case["maxLs"])
+        multi = case["kind"] == "multi"
         for i, (a, b) in enumerate(zip(model_out, impl_out)):
+            if i < nedge:
+                # class edges: the model evaluates `(i/n)*max` at Float; the property does not pin the expression
+                ea, eb = [h2f(t) for t in a.split()], [h2f(t) for t in b.split()]
+                if len(ea) != len(eb):
+                    return f"line {i}: {len(ea)} model edges, {len(eb)} table rows"
+                for k, (x, y) in enumerate(zip(ea, eb)):
+                    if not (abs(x - y) <= 2 * math.ulp(x)):
+                        return f"line {i}: class {k + 1}: model edge {x!r}, table load {y!r}"
+                continue
             toks = [t if t == "ValueError" or len(t) != 16 else hz(h2f(t)) for t in a.split()]
+            if multi:
+                if (i - nedge) % 2 == 1:
+                    continue                    # the `c07.multifirst` line is consulted from its `c07.multi` line only
+                if " ".join(toks) == b:
+                    continue
+                first = [t if t == "ValueError" or len(t) != 16 else hz(h2f(t)) for t in model_out[i + 1].split()]
+                if " ".join(first) == b:
+                    # exactly the recorded pre-repair mechanism (class / range check of the first point for all points);
+                    # the oracle reports the same look-up under the class binned-multi-first-point-class
+                    self._count("corr_multi_first_point_mechanism")
+                    continue
+                return f"line {i}: model={' '.join(toks)[:300]!r} impl={b[:300]!r}"
             if b == "ValueError" and len(toks) > 1:
                 # a Series holding one load above the range raises as a whole; the model answers per load
                 if "ValueError" not in toks:
@@ -374,43 +588,41 @@ class C07(Prop):
     def _oracle(self, case):
         n = case["n"]
         npts = 1 if case["kind"] == "single" else len(case["maxLs"])
-        if n < 1 or any(not (M > 0) for M in (case["maxLs"] if case["kind"] == "multi" else [case["maxL"]])):
+        maxima = [case["maxL"]] if case["kind"] == "single" else case["maxLs"]
+        if n < 1 or any(not (M > 0) for M in maxima):
             return None
         bl = self._binned(case)
         if isinstance(bl, Exception):
-            klass = "binned-single-class" if n * npts == 1 else "binned-construction"
+            # is it the wrapped law itself that fails on the column of edges (C06 material), or the binning?
+            try:
+                law = make_law(case["law"])
+                for fn, m in (("strain", n), ("strain2", 2 * n)):
+                    law_on(law, fn, pd.Series([e for i in range(1, m + 1) for e in [(float(i) / n) * float(M) for M in maxima]]))
+            except Exception:      # noqa: BLE001
+                self._count("wrapped_law_raises_on_edges")
+                return None
+            klass_ = "binned-single-class" if n * npts == 1 else "binned-construction"
             return (f"Binned(<{case['law']['type']}>, maximum load {case.get('maxL', case.get('maxLs'))!r}, number_of_bins={n}) "
-                    f"raises {type(bl).__name__} at construction: {str(bl)[:100]}", klass)
+                    f"raises {type(bl).__name__} at construction: {str(bl)[:100]}", klass_)
         b, law = bl
-        stub = case["law"]["type"] == "stub"
-        maxima = [case["maxL"]] if case["kind"] == "single" else case["maxLs"]
-        # ---- the tables: edges by the property's expression, values = the wrapped law on the Series of edges
-        ref = {}      # (fn, j) -> (edges, values)
+        exact_law = case["law"]["type"]          # "stub": exact; "neuber" / "sb": solver tolerances, see close_tab
+        # ---- the tables: edges on the property's grid (within rounding), values = the wrapped law on the Series of edges
+        ref = {}      # (fn, j) -> (edges of the real table, values)
         for fn in FNS:
             m = n if fn in ("stress", "strain") else 2 * n
             loads, vals = lut_of(b, fn)
             if len(loads) != m * npts:
                 return (f"{fn}: table has {len(loads)} rows, expected {m} classes x {npts} points", "binned-table")
             for j, M in enumerate(maxima):
-                es = edges_py(n, M, m)
                 lj, vj = loads[j::npts], vals[j::npts]
-                if lj != es:
-                    k = next(i for i in range(m) if lj[i] != es[i])
-                    return (f"{fn}: class {k + 1} of point {j} has load {lj[k]!r}, upper class edge (i/n)*max = {es[k]!r} "
-                            f"(n={n}, max={M!r})", "binned-edges")
-                ref[(fn, j)] = (es, vj)
-            ser = pd.Series(loads)        # the wrapped law on the whole column of edges, as one call
-            if fn == "stress":
-                want = law.stress(ser)
-            elif fn == "strain":
-                want = law.strain(law.stress(ser), ser)
-            elif fn == "stress2":
-                want = law.stress_secondary_branch(ser)
-            else:
-                want = law.strain_secondary_branch(law.stress_secondary_branch(ser), ser)
+                d = check_edges(lj, n, M, m)
+                if d:
+                    return (f"{fn}: point {j}: {d} (n={n}, max={M!r})", "binned-edges")
+                ref[(fn, j)] = (lj, vj)
+            want = law_on(law, fn, pd.Series(loads))        # the wrapped law on the whole column of edges, as one call
             want = [float(v) for v in np.atleast_1d(np.asarray(want, dtype=float))]
-            if want != vals:
-                k = next(i for i in range(len(vals)) if want[i] != vals[i])
+            if want != vals and not all(same(a, c) for a, c in zip(want, vals)):
+                k = next(i for i in range(len(vals)) if not same(want[i], vals[i]))
                 return (f"{fn}: class {k // npts + 1} of point {k % npts} holds {vals[k]!r}, the wrapped law at the upper edge "
                         f"{loads[k]!r} gives {want[k]!r}", "binned-table-values")
         # ---- per-point tables = the tables each point gets alone
@@ -427,93 +639,135 @@ class C07(Prop):
                 for fn in FNS:
                     ls, vs = lut_of(sb[0], fn)
                     es, vj = ref[(fn, j)]
-                    if ls != es or any(not close_tab(a, c, stub, fn) for a, c in zip(vs, vj)):
+                    m = len(es)
+                    d = check_edges(ls, n, M, m) if len(ls) == m else f"{len(ls)} classes instead of {m}"
+                    if d:
+                        return (f"{fn}: single table of point {j}: {d}", "binned-edges")
+                    same_edges = ls == es
+                    if any(not close_tab(a, c, exact_law, fn, same_edges) for a, c in zip(vs, vj)):
                         return (f"{fn}: per-point table of point {j} differs from the table the point gets alone "
                                 f"(max={M!r}, n={n})", "binned-multi-table")
         # ---- look-ups
         for q in case["queries"]:
-            fn = q["fn"]
-            xs = self._xs(q)
-            if any(x != x for x in xs):
-                r = call(b, fn, xs[0])
-                if q.get("form") == "scalar" and isinstance(r, list):
-                    return (f"{fn}(nan) returned {r!r}", "binned-out-of-range")
-                continue
-            if case["kind"] == "single":
-                es, vs = ref[(fn, 0)]
-                exp = []
-                for x in xs:
-                    k = next((i for i, e in enumerate(es) if abs(x) <= e), None)
-                    exp.append(None if k is None else (k, sign(x) * vs[k]))
-                r = call(b, fn, xs[0] if q["form"] == "scalar" else pd.Series(xs))
-                d = self._judge(case, fn, xs, exp, r, es, vs, law, stub)
-                if d:
-                    return d
-            else:
-                es0, _ = ref[(fn, 0)]
-                k = next((i for i, e in enumerate(es0) if abs(xs[0]) <= e), None)
-                r = call(b, fn, pd.Series(xs, index=pd.Index(case["node_ids"], name="node_id")))
-                if k is None:
-                    if r != "ValueError":
-                        return (f"{fn}: per-point look-up with first load {xs[0]!r} above the range {es0[-1]!r} "
-                                f"{'raised ' + r if isinstance(r, str) else 'returned ' + repr(r)} instead of ValueError",
-                                "binned-out-of-range")
-                    continue
-                if isinstance(r, str):
-                    return (f"{fn}: per-point look-up {xs!r} inside the range raised {r}", "binned-in-range-error")
-                want = [sign(x) * ref[(fn, j)][1][k] for j, x in enumerate(xs)]
-                if len(r) != len(want) or any(not same(a, c) for a, c in zip(r, want)):
-                    return (f"{fn}: per-point look-up {xs!r} returned {r!r}, class {k + 1} of the first point gives {want!r}",
-                            "binned-upper-edge")
-                if q.get("prop"):
-                    for j, x in enumerate(xs):
-                        if j not in singles:
-                            continue
-                        rs = call(singles[j], fn, x)
-                        if isinstance(rs, str) or not close_tab(rs[0], r[j], stub, fn):
-                            return (f"{fn}: proportional per-point look-up gives {r[j]!r} for point {j} (load {x!r}), the point's "
-                                    f"own table gives {rs!r}", "binned-multi-lookup")
+            d = self._lookup_query(case, q, b, law, ref, singles, exact_law)
+            if d and d[1] == FIRST_POINT:
+                # hit rate of the recorded mechanism (unchanged tree before the repair, seed 1 quick: 1074 of 5450 per-point
+                # look-ups; 0 after the repair) - lands in the evidence so that a jump is noticed
+                self._count("oracle_first_point_mechanism_lookups")
+            if d and not self.known(d[1], d[0]):
+                return d
         return None
 
-    def _judge(self, case, fn, xs, exp, r, es, vs, law, stub):
+    def _lookup_query(self, case, q, b, law, ref, singles, exact_law):
+        fn = q["fn"]
+        xs = self._xs(q)
+        if case["kind"] == "single":
+            if q["form"] == "scalar" and xs[0] != xs[0]:
+                r = call(b, fn, xs[0])
+                if isinstance(r, list):
+                    return (f"{fn}(nan) returned {r!r}", "binned-out-of-range")
+                return None
+            es, vs = ref[(fn, 0)]
+            r = call(b, fn, xs[0] if q["form"] == "scalar" else self._series(case, q))
+            keep = [i for i, x in enumerate(xs) if x == x]          # NaN inside a Series: outside the property
+            if len(keep) != len(xs):
+                if isinstance(r, list) and len(r) == len(xs):
+                    r = [r[i] for i in keep]
+                xs = [xs[i] for i in keep]
+            exp = []
+            for x in xs:
+                k = klass(es, x)
+                exp.append(None if k is None else (k, sign(x) * vs[k]))
+            return self._judge(case, q, fn, xs, exp, r, es, vs, law, exact_law)
+        # ---- per-point Series on a per-point table
+        if any(x != x for x in xs):
+            return None
+        npts = len(case["maxLs"])
+        if len(xs) != npts:
+            return None             # not one load per point: outside the property (correspondence: both reject)
+        r = call(b, fn, self._series(case, q))
+        ks = [klass(ref[(fn, j)][0], x) for j, x in enumerate(xs)]
+        repro = first_point_repro(ref, fn, xs)
+        idx = (q.get("index") or {}).get("kind", "ids")
+        what = f"{fn}: per-point look-up {xs!r} (maxima {case['maxLs']!r}, n={case['n']}, index {idx})"
+        if any(k is None for k in ks):
+            j = next(j for j, k in enumerate(ks) if k is None)
+            if r == "ValueError":
+                return None
+            d = (f"{what}: point {j} has load {xs[j]!r} above its own range {ref[(fn, j)][0][-1]!r}, the look-up "
+                 f"{'raised ' + r if isinstance(r, str) else 'returned ' + repr(r)} instead of ValueError")
+            if isinstance(r, list) and isinstance(repro, list) and len(r) == len(repro) and all(same(a, c) for a, c in zip(r, repro)):
+                return (d + " (= the values of the first point's class: the range check looks at the first point only)", FIRST_POINT)
+            return (d, "binned-out-of-range")
+        want = [sign(x) * ref[(fn, j)][1][k] for j, (x, k) in enumerate(zip(xs, ks))]
+        if isinstance(r, str):
+            return (f"{what}: every point inside its own range, the look-up raised {r}", "binned-in-range-error")
+        if len(r) != len(want) or any(not same(a, c) for a, c in zip(r, want)):
+            d = (f"{what} returned {r!r}; upper edge of every point's own class (classes {[k + 1 for k in ks]}) gives {want!r}")
+            if isinstance(repro, list) and len(r) == len(repro) and all(same(a, c) for a, c in zip(r, repro)):
+                return (d + f" (= class {klass(ref[(fn, 0)][0], xs[0]) + 1} of the FIRST point for all points)", FIRST_POINT)
+            return (d, "binned-upper-edge")
+        for j, x in enumerate(xs):
+            if j not in singles:
+                continue
+            rs = call(singles[j], fn, x)
+            same_edges = lut_of(singles[j], fn)[0] == ref[(fn, j)][0]
+            if not same_edges and any(abs(abs(x) - e) <= 4 * math.ulp(e) for e in ref[(fn, j)][0]):
+                continue        # the two constructors round an edge differently: a load next to it may fall on either side
+            if isinstance(rs, str) or not close_tab(rs[0], r[j], exact_law, fn, same_edges):
+                return (f"{what} gives {r[j]!r} for point {j} (load {x!r}), the point's own table gives {rs!r}",
+                        "binned-multi-lookup")
+        return None
+
+    def _judge(self, case, q, fn, xs, exp, r, es, vs, law, exact_law):
         n = case["n"]
+        idx = (q.get("index") or {}).get("kind", "range")
+        form = q["form"] + (f" (index {idx})" if q["form"] == "series" else "")
         if any(e is None for e in exp):
             if r != "ValueError":
                 bad = next(x for x, e in zip(xs, exp) if e is None)
-                return (f"{fn}: load {bad!r} above the initialised range {es[-1]!r} (n={n}) "
+                return (f"{fn} {form}: load {bad!r} above the initialised range {es[-1]!r} (n={n}) "
                         f"{'raised ' + r if isinstance(r, str) else 'returned ' + repr(r)} instead of ValueError", "binned-out-of-range")
             return None
         if isinstance(r, str):
-            return (f"{fn}: look-up of {xs[:4]!r} inside the range raised {r} (max class edge {es[-1]!r})", "binned-in-range-error")
+            return (f"{fn} {form}: look-up of {xs[:4]!r} inside the range raised {r} (max class edge {es[-1]!r})", "binned-in-range-error")
         if len(r) != len(xs):
-            return (f"{fn}: {len(xs)} loads, {len(r)} results", "binned-upper-edge")
+            return (f"{fn} {form}: {len(xs)} loads, {len(r)} results", "binned-upper-edge")
         for x, (k, want), got in zip(xs, exp, r):
             if not same(got, want):
-                return (f"{fn}({x!r}) = {got!r}; upper-edge rule: class {k + 1} (edges {es[k - 1] if k else 0.0!r} < |x| <= {es[k]!r}) "
+                return (f"{fn}({x!r}) {form} = {got!r}; upper-edge rule: class {k + 1} (edges {es[k - 1] if k else 0.0!r} < |x| <= {es[k]!r}) "
                         f"gives {want!r} (n={n}, max={case['maxL']!r})", "binned-upper-edge")
-        # consequences (primary stress only needs the law itself; strains follow the same table)
-        if fn in ("stress", "stress2"):
-            f = law.stress if fn == "stress" else law.stress_secondary_branch
-            tol = 0.0 if stub else 3e-4
-            for x, (k, want), got in zip(xs, exp, r):
-                if x == 0:
-                    continue
-                try:
-                    exact = float(f(abs(x)))
-                except RuntimeError:        # the wrapped law's own solver gave up on this load: nothing to compare with
-                    self._count("law_solver_raises")
-                    continue
-                if exact != exact:
-                    continue
-                if abs(got) < exact - tol * exact - tol:
-                    return (f"{fn}({x!r}) = {got!r} under-estimates the wrapped law's {exact!r}", "binned-underestimates")
-                lower = vs[k - 1] if k else 0.0
-                if abs(abs(got) - exact) > (vs[k] - lower) + tol * exact + tol:
-                    return (f"{fn}({x!r}) = {got!r} deviates from the wrapped law's {exact!r} by more than one class "
-                            f"({vs[k] - lower!r})", "binned-deviation")
+        # consequences, all four functions, against the wrapped law itself at |x| (one vectorised call)
+        nz = [(x, k, got) for x, (k, _w), got in zip(xs, exp, r) if x != 0 and math.isfinite(x)]
+        if nz:
+            # the real laws are solved to rtol = tol = 1e-4 (array Newton stops when all elements converged); a strain
+            # amplifies a stress error by at most 1/n' <= 10
+            tol, atol = solver_tol(exact_law, fn)
+            if any(not (c >= a) for a, c in zip([0.0] + vs, vs)):
+                # the consequence clauses are about a monotone odd wrapped law (theorem hypotheses); a law whose solver
+                # returns non-monotone values on the column of edges is C06 material
+                self._count("law_not_monotone_on_edges")
+                return None
+            try:
+                exact = law_on(law, fn, pd.Series([abs(x) for x, _k, _g in nz]))
+                exact = [float(v) for v in np.atleast_1d(np.asarray(exact, dtype=float))]
+            except RuntimeError:        # the wrapped law's own solver gave up: nothing to compare with
+                self._count("law_solver_raises")
+                exact = None
+            if exact is not None:
+                self._count("consequence_values_" + fn, len(nz))
+                for (x, k, got), ex in zip(nz, exact):
+                    if ex != ex:
+                        continue
+                    if abs(got) < ex - tol * ex - atol:
+                        return (f"{fn}({x!r}) = {got!r} under-estimates the wrapped law's {ex!r}", "binned-underestimates")
+                    lower = vs[k - 1] if k else 0.0
+                    if abs(abs(got) - ex) > (vs[k] - lower) + tol * ex + atol:
+                        return (f"{fn}({x!r}) = {got!r} deviates from the wrapped law's {ex!r} by more than one class "
+                                f"({vs[k] - lower!r})", "binned-deviation")
             pairs = sorted(zip(xs, r))
             for (x1, y1), (x2, y2) in zip(pairs, pairs[1:]):
-                if y2 < y1 - tol * abs(y1) - tol:
+                if y2 < y1 - tol * abs(y1) - atol:
                     return (f"{fn} not monotone: {fn}({x1!r}) = {y1!r} > {fn}({x2!r}) = {y2!r}", "binned-monotone")
         return None
 
@@ -534,7 +788,7 @@ class C07(Prop):
                         break
                 except Exception:     # noqa: BLE001
                     continue
-        if len(qs) == 1 and cur["kind"] == "single" and len(qs[0]["xs"]) > 1:
+        if len(qs) == 1 and cur["kind"] == "single" and len(qs[0]["xs"]) > 1 and not qs[0].get("index"):
             q = qs[0]
             for x in q["xs"]:
                 cand = dict(cur, queries=[dict(q, xs=[x])])
@@ -546,16 +800,38 @@ class C07(Prop):
         return cur
 
 
+def first_point_repro(ref, fn, xs):
+    """The per-point look-up as coded before tools/fixes/C07-binned-per-point-class.diff, reproduced on the real table's
+    numbers: class of the FIRST point's load in the first point's column for all points, range check for the first point
+    only.  Used only to recognise the recorded finding by its mechanism."""
+    k0 = klass(ref[(fn, 0)][0], xs[0])
+    if k0 is None:
+        return "ValueError"
+    return [sign(x) * ref[(fn, j)][1][k0] for j, x in enumerate(xs)]
+
+
 def same(a, b):
     return a == b or (a != a and b != b)
 
 
-def close_tab(a, b, stub, fn):
-    """Equality of table values computed by separate vectorised solver calls (the array Newton iteration stops when ALL
-    elements have converged, so a value depends on its companions within the solver tolerance rtol = tol = 1e-4; strains
-    amplify a stress error by at most 1/n' <= 10).  Exact for the stub law."""
-    if stub:
-        return same(a, b)
+def solver_tol(law_type, fn):
+    """(relative, absolute) tolerance of a wrapped law's value against another call of the same law.  stub: exact.
+    ExtendedNeuber: the array Newton iteration stops when ALL elements have converged, so a value depends on its
+    companions within the solver tolerance rtol = tol = 1e-4; a strain amplifies a stress error by at most 1/n' <= 10.
+    SeegerBeste: the vectorised secant iteration stops early (open C06 finding seegerbeste-tolerance, deviations of some
+    1e-4 .. 1e-3 observed between two calls): ten times wider."""
+    if law_type == "stub":
+        return 0.0, 0.0
+    f = 10.0 if law_type == "sb" else 1.0
     if "stress" in fn:
-        return abs(a - b) <= 2e-4 * abs(b) + 2e-4
-    return abs(a - b) <= 3e-3 * abs(b) + 1e-8
+        return 3e-4 * f, 3e-4 * f
+    return 3e-3 * f, 1e-8
+
+
+def close_tab(a, b, law_type, fn, same_edges=True):
+    """Equality of table values computed by separate vectorised solver calls (see solver_tol).  Exact for the stub law on
+    bit-identical edges (within rounding when the two constructors produce edges that differ in the last place)."""
+    if law_type == "stub":
+        return same(a, b) if same_edges else abs(a - b) <= 1e-12 * abs(b)
+    rtol, atol = solver_tol(law_type, fn)
+    return abs(a - b) <= rtol * abs(b) + atol
